@@ -16,6 +16,8 @@ def inject(p, cls, r):
     """returns (program, expected failing position) or None when the class does not apply.
     Positions: 0 = constructor, k = k-th op (1-based)."""
     q = copy.deepcopy(p)
+    if cls == "unknown_infectious":
+        q.pop("inf_bare", None)
     ops = q["ops"]
     comps = q["comps"]
     sidx = strat_ops(q)
@@ -36,6 +38,14 @@ def inject(p, cls, r):
         return q, 0
     if cls == "unknown_infectious":
         q["inf"] = q["inf"] + ["Zz"]
+        return q, 0
+    if cls == "unknown_infectious_bare_string":
+        # one string that is not a compartment name although each of its characters is one 
+        if not all(len(c_) == 1 for c_ in comps):
+            return None
+        k_ = r.choice([2, 2, 3, len(comps)])
+        q["inf"] = ["".join(r.sample(comps, min(k_, len(comps))))]
+        q["inf_bare"] = True
         return q, 0
     if cls == "unknown_population_compartment":
         i = next(i for i, o in enumerate(ops) if o["op"] == "pop")
@@ -312,7 +322,7 @@ def inject(p, cls, r):
 
 _AFTER_FINALIZE = [0]
 _FILTER_VARIANT = [0]
-CLASSES = ["end_before_start", "timestep_not_dividing", "timestep_not_dividing_long", "unknown_infectious", "unknown_population_compartment",
+CLASSES = ["end_before_start", "timestep_not_dividing", "timestep_not_dividing_long", "unknown_infectious", "unknown_infectious_bare_string", "unknown_population_compartment",
            "unknown_stratified_compartment", "unknown_flow_compartment", "output_for_unknown_compartment",
            "output_for_unknown_flow", "adjusting_unknown_flow", "unknown_filter_strata", "unknown_output_source",
            "adjustment_omits_stratum", "infectiousness_omits_stratum", "split_omits_stratum", "split_negative", "split_not_one",
@@ -342,6 +352,8 @@ def run(tier, seed):
                 if o["op"] in ("flow", "udeath") and o.get("kind") != "replacement_birth" and "param" in o:
                     e = o["param"]
                     o["pyrate"] = {"num": e} if (isinstance(e, str) and e != "t") else {"graph": e}
+        if n_ % 4 == 1 and len(p["inf"]) == 1:
+            p["inf_bare"] = True        # a single infectious compartment may be given by its name
         p["obs"] = [{"obs": "struct"}]
         progs.append(p)
         expect.append(None)
@@ -350,7 +362,7 @@ def run(tier, seed):
         classes = list(classes) + [c_ for c_ in ("output_for_unmatched_compartment", "output_for_unmatched_flow", "unequal_source_dest",
                                                  "unknown_flow_compartments_both", "rate_not_a_number",
                                                  "age_on_partial", "second_age", "second_strain", "flow_end_matches_nothing",
-                                                 "unknown_filter_strata", "after_finalize", "flow_count_zero") if c_ not in classes]
+                                                 "unknown_filter_strata", "after_finalize", "flow_count_zero", "unknown_infectious_bare_string") if c_ not in classes]
         for cls in classes:
             res = inject(p, cls, g.rng)
             if res is None:
